@@ -95,13 +95,32 @@ func Reduce(c *fw.Ctx, path string) error {
 		return err
 	}
 	cur := &w.Case.Prog
-	differs := func(p *gocore.Prog) (bool, string) {
-		src := p.Source()
-		nr := c.Native(src, 5*time.Second)
-		if !nr.BuildOK || nr.Timeout {
-			return false, ""
+	// REDUCE_ERR=<substring>: keep a candidate while the interpreter's error or panic text
+	// contains the substring (no toolchain involved: fast)
+	if sub := os.Getenv("REDUCE_ERR"); sub != "" {
+		has := func(o gocore.Obs) bool { return strings.Contains(o.Raw+" "+o.Err+" "+o.End+" "+o.Stdout, sub) }
+		if !has(EvalAll(c, []string{cur.Source()})[0]) {
+			return fmt.Errorf("the program does not show %q", sub)
 		}
-		o := gocore.EvalWhole(src, 5*time.Second)
+		for progress := true; progress; {
+			progress = false
+			cands := gocore.Reductions(cur)
+			srcs := make([]string, len(cands))
+			for i, q := range cands {
+				srcs[i] = q.Source()
+			}
+			for i, o := range EvalAll(c, srcs) {
+				if has(o) && len(srcs[i]) < len(cur.Source()) {
+					cur, progress = cands[i], true
+					break
+				}
+			}
+			fmt.Fprintf(os.Stderr, "reduce: %d candidates, progress=%v, size=%d\n", len(cands), progress, len(cur.Source()))
+		}
+		fmt.Println(cur.Source())
+		return nil
+	}
+	ends := func(nr fw.NativeResult) string {
 		nend := "ok"
 		if nr.Exit != 0 {
 			nend = "panic fault"
@@ -112,27 +131,41 @@ func Reduce(c *fw.Ctx, path string) error {
 				}
 			}
 		}
+		return nend
+	}
+	differs := func(src string, nr fw.NativeResult) (bool, string) {
+		if !nr.BuildOK || nr.Timeout {
+			return false, ""
+		}
+		o := gocore.EvalWhole(src, 5*time.Second)
 		yend := o.End
 		if o.End == "panic" {
 			yend = "panic " + o.Value
 		}
-		if o.Stdout != nr.Stdout || yend != nend {
-			return true, fmt.Sprintf("yaegi: %q %s %s %s | native: %q exit %d", o.Stdout, o.End, o.Value, o.Err, nr.Stdout, nr.Exit)
+		if o.Stdout != nr.Stdout || yend != ends(nr) {
+			return true, fmt.Sprintf("yaegi: %q %s %s %s | native: %q %s", o.Stdout, o.End, o.Value, o.Err, nr.Stdout, ends(nr))
 		}
 		return false, ""
 	}
-	ok, why := differs(cur)
+	ok, why := differs(cur.Source(), c.Native(cur.Source(), 5*time.Second))
 	if !ok {
 		return fmt.Errorf("the program does not fail")
 	}
 	for progress := true; progress; {
 		progress = false
-		for _, q := range gocore.Reductions(cur) {
-			if d, w2 := differs(q); d {
-				cur, why, progress = q, w2, true
+		cands := gocore.Reductions(cur)
+		srcs := make([]string, len(cands))
+		for i, q := range cands {
+			srcs[i] = q.Source()
+		}
+		nres := c.NativeBatch(srcs, 5*time.Second)
+		for i := range cands {
+			if d, w2 := differs(srcs[i], nres[i]); d && len(srcs[i]) < len(cur.Source()) {
+				cur, why, progress = cands[i], w2, true
 				break
 			}
 		}
+		fmt.Fprintf(os.Stderr, "reduce: %d candidates, progress=%v, size=%d\n", len(cands), progress, len(cur.Source()))
 	}
 	fmt.Println(cur.Source())
 	fmt.Println("DIFFERENCE:", why)
@@ -225,6 +258,14 @@ func Check(c *fw.Ctx, behs []gocore.Beh, nativeSample int) error {
 		if !behs[i].Agrees(obs[i]) {
 			bads = append(bads, bad{i, obs[i]})
 		}
+	}
+	if p := os.Getenv("GORUN_DUMP"); p != "" {
+		var rows []map[string]any
+		for i := range behs {
+			rows = append(rows, map[string]any{"prog": behs[i].Prog, "src": srcs[i], "agree": behs[i].Agrees(obs[i]), "obs": obs[i], "expected": behs[i].ExpectedStdout(), "status": behs[i].Status})
+		}
+		bb, _ := json.Marshal(rows)
+		os.WriteFile(p, bb, 0o644)
 	}
 	// triangulate every disagreement with the toolchain (bounded: 200 per run)
 	if len(bads) > 200 {
